@@ -67,6 +67,13 @@ func ParseReadServerIDRequestTCP(data []byte) (*ReadServerIDRequestTCP, error) {
 		return nil, err
 	}
 	unitID := data[6]
+	if len(data) < 8 {
+		tmpErr := NewErrorParseTCP(ErrIllegalDataValue, "received data length too short to be valid packet")
+		tmpErr.Packet.TransactionID = header.TransactionID
+		tmpErr.Packet.UnitID = unitID
+		tmpErr.Packet.Function = FunctionReadServerID
+		return nil, tmpErr
+	}
 	if data[7] != FunctionReadServerID {
 		tmpErr := NewErrorParseTCP(ErrIllegalFunction, "received function code in packet is not 0x11")
 		tmpErr.Packet.TransactionID = header.TransactionID
